@@ -3,13 +3,13 @@ package main
 // Replay files and counterexample replay against the real code.
 
 import (
-	"strings"
 	"crypto/sha256"
 	"encoding/hex"
 	"encoding/json"
 	"fmt"
 	"os"
 	"path/filepath"
+	"strings"
 )
 
 type ReplayFile struct {
